@@ -612,15 +612,41 @@ func (e *Exec) verifyClosure(pkg *ssa.Package, c *Contract) {
 			e.keepOnHavoc = append(e.keepOnHavoc, frameLoc{key, a})
 		}
 	}
+	// the literal's own parameters are symbolic inputs; its named results can be mentioned in ensures
+	params := e.symbolicArgs(st, anon.Params, nil)
+	paramIdx := map[string]int{}
+	for i, p := range anon.Params {
+		paramIdx[p.Name()] = i
+	}
+	resIdx := map[string]int{}
+	if rs := anon.Signature.Results(); rs != nil {
+		for i := 0; i < rs.Len(); i++ {
+			if n := rs.At(i).Name(); n != "" && n != "_" {
+				resIdx[n] = i
+			}
+		}
+	}
+	var result *smt.Term
 	argsFor := func(s *State) []*smt.Term {
 		var as []*smt.Term
 		for _, v := range c.ClosureVars {
-			i, ok := cell[v.Name]
-			if !ok {
-				unsupported("closure contract %s: %q is not a captured variable of the literal (captured: %v)", c.Display(), v.Name, cell)
+			if i, ok := cell[v.Name]; ok {
+				fv := anon.FreeVars[i]
+				as = append(as, e.load(s, bindings[i], fv.Type().Underlying().(*types.Pointer).Elem()))
+			} else if i, ok := paramIdx[v.Name]; ok {
+				as = append(as, params[i])
+			} else if i, ok := resIdx[v.Name]; ok {
+				switch {
+				case result == nil:
+					as = append(as, e.W.Zero(anon.Signature.Results().At(i).Type())) // not yet known (requires must not use it)
+				case anon.Signature.Results().Len() == 1:
+					as = append(as, result)
+				default:
+					as = append(as, result.Args[i])
+				}
+			} else {
+				unsupported("closure contract %s: %q is neither a captured variable, a parameter nor a named result of the literal", c.Display(), v.Name)
 			}
-			fv := anon.FreeVars[i]
-			as = append(as, e.load(s, bindings[i], fv.Type().Underlying().(*types.Pointer).Elem()))
 		}
 		return as
 	}
@@ -640,7 +666,8 @@ func (e *Exec) verifyClosure(pkg *ssa.Package, c *Contract) {
 		st.Assume(v)
 	}
 	e.recoverNondet = true
-	_, out := e.runFunc(anon, nil, bindings, st, nil)
+	res, out := e.runFunc(anon, params, bindings, st, nil)
+	result = res
 	e.recoverNondet = false
 	if out == nil || out.Dead() {
 		unsupported("closure %s has no normal exit", c.Display())
